@@ -666,6 +666,7 @@ func init() {
 	reg("SliceUJ", []UJ(nil), "ucb")
 	reg("MapStrUJ", map[string]UJ(nil), "ucb")
 	regGenerated()
+	regReflect()
 	sort.SliceStable(typeList, func(i, j int) bool { return false })
 }
 
@@ -697,4 +698,43 @@ func plainTypes(pred func(*TypeInfo) bool) []string {
 		}
 	}
 	return out
+}
+
+// Reflect-created types: their descriptors live on the heap, outside the
+// address window of the binary's own types, so they take the fallback
+// (copy-on-write map) path of both caches.
+var reflectTypeNames []string
+
+func regReflect() {
+	base := []reflect.Type{reflect.TypeOf(0), reflect.TypeOf(""), reflect.TypeOf(true), reflect.TypeOf(1.5), reflect.TypeOf(Small{}), reflect.TypeOf([]int(nil)), reflect.TypeOf(Leaf{}), reflect.TypeOf(map[string]int(nil))}
+	for i := 0; i < 24; i++ {
+		var t reflect.Type
+		b := base[i%len(base)]
+		switch i % 6 {
+		case 0:
+			t = reflect.StructOf([]reflect.StructField{
+				{Name: fmt.Sprintf("RA%d", i), Type: b, Tag: reflect.StructTag(fmt.Sprintf(`json:"ra%d"`, i))},
+				{Name: "RB", Type: base[(i+3)%len(base)], Tag: `json:"rb,omitempty"`},
+			})
+		case 1:
+			t = reflect.SliceOf(reflect.ArrayOf(i+2, b))
+		case 2:
+			t = reflect.MapOf(reflect.TypeOf(""), reflect.ArrayOf(i+40, b))
+		case 3:
+			t = reflect.ArrayOf(i+90, b)
+		case 4:
+			t = reflect.PointerTo(reflect.ArrayOf(i+140, b))
+		default:
+			t = reflect.StructOf([]reflect.StructField{
+				{Name: fmt.Sprintf("RC%d", i), Type: reflect.SliceOf(b)},
+				{Name: "RD", Type: reflect.PointerTo(reflect.ArrayOf(i+200, b)), Tag: `json:"rd"`},
+				{Name: "RE", Type: reflect.TypeOf((*interface{})(nil)).Elem()},
+			})
+		}
+		name := fmt.Sprintf("R%02d", i)
+		ti := &TypeInfo{Name: name, T: t, Gen: true, Struct: t.Kind() == reflect.Struct}
+		typeMap[name] = ti
+		typeList = append(typeList, ti)
+		reflectTypeNames = append(reflectTypeNames, name)
+	}
 }
